@@ -52,16 +52,26 @@ type Sched struct {
 // here returns the innermost position of the current goroutine that lies in the repository tree
 // (scheduling points inside std code are attributed to their repo call site).
 func (s *Sched) here() string {
+	// innermost frame inside the package under test (only that package's files can be
+	// instrumented for the native replay); failing that, the innermost frame in the repository
+	fallback := ""
 	for f := s.ex.curFrame; f != nil; f = f.caller {
 		if !f.pos.IsValid() {
 			continue
 		}
 		ps := s.ex.fset.Position(f.pos)
-		if strings.HasPrefix(ps.Filename, repoDir+"/") {
-			return fmt.Sprintf("%s:%d", ps.Filename[len(repoDir)+1:], ps.Line)
+		if !strings.HasPrefix(ps.Filename, repoDir+"/") {
+			continue
+		}
+		rel := ps.Filename[len(repoDir)+1:]
+		if i := strings.LastIndexByte(rel, '/'); (i >= 0 && rel[:i] == s.ex.pkgRel) || (i < 0 && s.ex.pkgRel == ".") {
+			return fmt.Sprintf("%s:%d", rel, ps.Line)
+		}
+		if fallback == "" {
+			fallback = fmt.Sprintf("%s:%d", rel, ps.Line)
 		}
 	}
-	return ""
+	return fallback
 }
 
 // visit records that the current goroutine passed a scheduling point and returns (point, occurrence).
